@@ -53,6 +53,24 @@
 (* (OffsetInvariant, checked by TLC).  The offset is carried exactly and   *)
 (* is never added to anything that is squared.                             *)
 (*                                                                         *)
+(* Histories (HistSpec).  An aggregator is an OBJECT that is called again  *)
+(* and again; the property is a statement about EVERY call of a history:   *)
+(* what the n-th call must return is a function of the object's            *)
+(* parameters and of the n-th matrix ONLY (HistExpected, HistPerCall) -    *)
+(* whatever was passed before, whatever dtype, whatever number of rows.    *)
+(* `hist` is the sequence of calls made so far on one object (the current  *)
+(* matrix is the last one); the history actions change the matrix between  *)
+(* two calls in the ways that matter for an object that remembers          *)
+(* something: a row is corrupted / the rows the previous call SELECTED are *)
+(* replaced by outliers (same m, same dtype, the selection must move) /    *)
+(* corrupted rows become honest again (the selection must move back) / the *)
+(* last row disappears and comes back (m changes and returns; the call in  *)
+(* between may have too few rows: rejected, and the next one accepted) /   *)
+(* the dtype changes and comes back / the same matrix is passed again.     *)
+(* All histories of HistLen calls over these actions are explored, every   *)
+(* call is subject to the same invariants as a single matrix, and every    *)
+(* complete history is exported with the per-call expectations.            *)
+(*                                                                         *)
 (* Property layer: TrimmedMean = per column, remove the largest and the    *)
 (* smallest entry b times, average the rest (PropTM); the result lies in   *)
 (* the range of the untouched rows.  Krum = any set T of k rows such that  *)
@@ -71,7 +89,10 @@ CONSTANTS MaxM,       \* matrices with 1..MaxM rows
           Kinds,      \* subset of {"tm", "krum"}
           TSeeds,     \* seeds of the tie-heavy honest matrices (TrimmedMean; disjoint from HSeeds)
           ManyM,      \* row counts of the many-row family (each > MaxM; Krum)
-          ManySteps   \* number of block steps of a many-row fault sequence
+          ManySteps,  \* number of block steps of a many-row fault sequence
+          HistM,      \* row counts (at the first call) of the history family (each <= MaxM)
+          HistLen,    \* number of calls of a history
+          HistPats    \* corruption patterns used between two calls of a history
 
 VARIABLES kind,       \* "tm" | "krum"
           m,          \* number of rows
@@ -79,9 +100,10 @@ VARIABLES kind,       \* "tm" | "krum"
           hs,         \* seed of the honest matrix
           status,     \* "ok" | "reject" (too few rows for the parameter)
           corrupt,    \* set of corrupted rows
-          JA, JB      \* the current matrix J = JA + S * JB
+          JA, JB,     \* the current matrix J = JA + S * JB
+          hist        \* HistSpec: the calls made so far on ONE object (<<>> in Spec: one call per object)
 
-vars == <<kind, m, par, hs, status, corrupt, JA, JB>>
+vars == <<kind, m, par, hs, status, corrupt, JA, JB, hist>>
 
 SExp      == 39                 \* S = 2^39 = 5.5e11 (<= 1e12 x honest scale whenever that scale is >= 1)
 SOver1000 == 549755813          \* floor(2^39 / 1000)
@@ -155,6 +177,7 @@ Init == /\ (InitSmall \/ InitMany)
         /\ status = StatusOf(kind, m, par)
         /\ corrupt = {}
         /\ JA = Honest(hs, m) /\ JB = ZeroM(m)
+        /\ hist = <<>>
 
 Corrupt(i, p) == /\ status = "ok"
                  /\ ~IsMany(m)
@@ -163,7 +186,7 @@ Corrupt(i, p) == /\ status = "ok"
                  /\ corrupt' = corrupt \cup {i}
                  /\ JA' = [JA EXCEPT ![i] = Pattern(p, i).a]
                  /\ JB' = [JB EXCEPT ![i] = Pattern(p, i).b]
-                 /\ UNCHANGED <<kind, m, par, hs, status>>
+                 /\ UNCHANGED <<kind, m, par, hs, status, hist>>
 
 \* many rows: the tree of all fault sequences is far too large; ONE sequence per (m, seed, f) is
 \* followed, in ManySteps block steps: the victims are the first rows in a seed-determined order,
@@ -182,7 +205,7 @@ CorruptBlock == /\ status = "ok"
                    IN  /\ corrupt' = corrupt \cup new
                        /\ JA' = [i \in Rows |-> IF i \in new THEN Pattern(VPat(hs, i), i).a ELSE JA[i]]
                        /\ JB' = [i \in Rows |-> IF i \in new THEN Pattern(VPat(hs, i), i).b ELSE JB[i]]
-                /\ UNCHANGED <<kind, m, par, hs, status>>
+                /\ UNCHANGED <<kind, m, par, hs, status, hist>>
 
 Next == \/ \E i \in Rows, p \in 1..NPat : Corrupt(i, p)
         \/ CorruptBlock
@@ -461,15 +484,17 @@ SetsToSeq(SS) == LET RECURSIVE G(_)
 
 \* mode "enum": `allowed` lists every allowed selection; mode "bounds" (many rows): `allowed` holds the
 \* unique selection when the case is decided, and every selection T satisfies must <= T <= may
-KrumCases(A, B, f) ==
+\* (kmax: the largest n_selected reported; an object's n_selected stays when the row count changes)
+KrumCasesUpTo(A, B, f, kmax) ==
     LET mm  == Len(A)
         ok  == mm >= f + 3
         ka  == IF ok THEN KrumAll(A, B, f) ELSE <<>>
-    IN  [k \in 1..(mm + 1) |->
+    IN  [k \in 1..kmax |->
            IF ok /\ k <= mm
            THEN [k |-> k, status |-> "ok", mode |-> "enum", allowed |-> SetsToSeq(ka.sels[k]),
                  must |-> <<>>, may |-> <<>>]
            ELSE [k |-> k, status |-> "reject", mode |-> "enum", allowed |-> <<>>, must |-> <<>>, may |-> <<>>]]
+KrumCases(A, B, f) == KrumCasesUpTo(A, B, f, Len(A) + 1)
 KrumCasesMany(A, B, f) ==
     LET mm  == Len(A)
         ok  == mm >= f + 3
@@ -492,4 +517,120 @@ Scenario ==
               ELSE <<>>]
 
 Export == PrintT(<<"SCN", ToJson(Scenario)>>)
+
+-----------------------------------------------------------------------------
+(* Histories of calls on ONE aggregator object (HistSpec)                  *)
+
+OtherDT(d)  == IF d = "float32" THEN "float64" ELSE "float32"
+FirstDT(s)  == IF s % 2 = 0 THEN "float32" ELSE "float64"      \* dtype of the first call (both occur: HSeeds)
+\* one call: the matrix passed (with the rows of it that are corrupted), its dtype, and how it was
+\* obtained from the matrix of the previous call
+Call(A, B, bad, d, act) == [A |-> A, B |-> B, bad |-> bad, d |-> d, act |-> act]
+CurDT       == hist[Len(hist)].d
+M0          == Len(hist[1].A)                                  \* number of rows at the first call
+FirstN(S, n) == {i \in S : Cardinality({j \in S : j < i}) < n}
+
+HInit == /\ kind \in Kinds /\ m \in HistM /\ hs \in HSeeds
+         /\ par \in {p \in ParRange(kind, m) : StatusOf(kind, m, p) = "ok"}
+         /\ status = "ok" /\ corrupt = {}
+         /\ JA = Honest(hs, m) /\ JB = ZeroM(m)
+         /\ hist = << Call(Honest(hs, m), ZeroM(m), {}, FirstDT(hs), "first") >>
+
+\* the object is called on (A2, B2) in dtype d2
+HStep(A2, B2, bad2, d2, act) ==
+    /\ Len(hist) < HistLen
+    /\ JA' = A2 /\ JB' = B2 /\ corrupt' = bad2
+    /\ m' = Len(A2)
+    /\ status' = StatusOf(kind, Len(A2), par)
+    /\ hist' = Append(hist, Call(A2, B2, bad2, d2, act))
+    /\ UNCHANGED <<kind, par, hs>>
+
+WriteRows(V, p) == [A |-> [i \in Rows |-> IF i \in V THEN Pattern(p, i).a ELSE JA[i]],
+                    B |-> [i \in Rows |-> IF i \in V THEN Pattern(p, i).b ELSE JB[i]]]
+HonestRows(V)   == [A |-> [i \in Rows |-> IF i \in V THEN Honest(hs, m)[i] ELSE JA[i]],
+                    B |-> [i \in Rows |-> IF i \in V THEN ZeroM(m)[i] ELSE JB[i]]]
+
+\* one more row is corrupted (any row, selected by the previous call or not)
+HCorrupt(i, p) == /\ status = "ok" /\ i \notin corrupt /\ Cardinality(corrupt) < par
+                  /\ LET w == WriteRows({i}, p) IN HStep(w.A, w.B, corrupt \cup {i}, CurDT, "corrupt")
+
+\* the rows the previous call selected: Krum - the n rows with the definitely smallest scores (the
+\* selection of Krum(f, n), when it is decided); TrimmedMean - the first n rows with an entry that
+\* survived the trimming of its column
+PrevSelected(n) ==
+    IF kind = "krum"
+    THEN LET must == MustIn(BelowRel(KrumScores(JA, JB, par)), Rows, n)
+         IN  IF Cardinality(must) = n THEN must ELSE {}
+    ELSE LET s == TLCEval([c \in Cols |-> ColKeys(JA, JB, c)])
+         IN  FirstN({i \in Rows : \E c \in Cols : RankIn(s[c], i) > par /\ RankIn(s[c], i) <= m - par}, n)
+\* ALL the rows that may still be corrupted are spent, at once, on rows the previous call selected
+\* (a block of >= 2 rows; a single selected row is an instance of HCorrupt)
+HCorruptSel(p) == /\ status = "ok" /\ par - Cardinality(corrupt) >= 2
+                  /\ LET V == PrevSelected(par - Cardinality(corrupt)) \ corrupt
+                         w == WriteRows(V, p)
+                     IN  /\ Cardinality(V) >= 2
+                         /\ HStep(w.A, w.B, corrupt \cup V, CurDT, "corrupt_selected")
+\* corrupted rows are honest again: one of them / all of them
+HRestore(i)    == /\ i \in corrupt
+                  /\ LET w == HonestRows({i}) IN HStep(w.A, w.B, corrupt \ {i}, CurDT, "restore")
+HRestoreAll    == /\ Cardinality(corrupt) >= 2
+                  /\ LET w == HonestRows(corrupt) IN HStep(w.A, w.B, {}, CurDT, "restore_all")
+\* the last row disappears (possibly leaving too few rows for the parameter) and comes back
+HResize        == IF m = M0
+                  THEN /\ m >= 2
+                       /\ HStep(SubSeq(JA, 1, m - 1), SubSeq(JB, 1, m - 1), corrupt \ {m}, CurDT, "fewer_rows")
+                  ELSE HStep(Append(JA, Honest(hs, m + 1)[m + 1]), Append(JB, ZeroM(m + 1)[m + 1]), corrupt, CurDT, "rows_back")
+\* ... or a corrupted row comes in its place (same m as two calls ago, another matrix)
+HRowsBackBad(p) == /\ m = M0 - 1 /\ Cardinality(corrupt) < par
+                   /\ HStep(Append(JA, Pattern(p, m + 1).a), Append(JB, Pattern(p, m + 1).b), corrupt \cup {m + 1},
+                            CurDT, "rows_back_corrupted")
+\* the same matrix in the other dtype / once more as it is
+HDType         == HStep(JA, JB, corrupt, OtherDT(CurDT), "dtype")
+HSame          == HStep(JA, JB, corrupt, CurDT, "same")
+
+HNext == \/ \E i \in Rows, p \in HistPats : HCorrupt(i, p)
+         \/ \E p \in HistPats : HCorruptSel(p)
+         \/ \E i \in Rows : HRestore(i)
+         \/ \E p \in HistPats : HRowsBackBad(p)
+         \/ HRestoreAll \/ HResize \/ HDType \/ HSame
+HistSpec == HInit /\ [][HNext]_vars
+
+\* What the n-th call of history h must return: a function of the object (kind, parameter) and of
+\* the n-th matrix ONLY.  (Krum: one object per n_selected k <= M0 + 1, all of them passed through the
+\* same history; k stays when the number of rows changes.)
+CallExpect(kd, p, c, kmax) ==
+    LET mm == Len(c.A)
+        st == StatusOf(kd, mm, p)
+    IN  [m |-> mm, d |-> c.d, act |-> c.act, status |-> st, corrupt |-> SetToSeq(c.bad), ja |-> c.A, jb |-> c.B,
+         tm   |-> IF kd = "tm" /\ st = "ok" THEN PropTM(c.A, c.B, p) ELSE <<>>,
+         hmin |-> IF st = "ok" THEN [cc \in Cols |-> MinOf(HonestVals(c.A, c.bad, cc))] ELSE <<>>,
+         hmax |-> IF st = "ok" THEN [cc \in Cols |-> MaxOf(HonestVals(c.A, c.bad, cc))] ELSE <<>>,
+         krum |-> IF kd = "krum" THEN KrumCasesUpTo(c.A, c.B, p, kmax) ELSE <<>>]
+HistExpectedK(h, n, kmax) == CallExpect(kind, par, h[n], kmax)
+HistExpected(h, n) == HistExpectedK(h, n, Len(h[1].A) + 1)
+
+HistTypeOK == /\ Len(hist) >= 1 /\ Len(hist) <= HistLen
+              /\ HistM \subseteq 1..MaxM
+              /\ LET c == hist[Len(hist)] IN c.A = JA /\ c.B = JB /\ c.bad = corrupt /\ Len(c.A) = m
+              /\ \A n \in DOMAIN hist : /\ Len(hist[n].A) \in {M0, M0 - 1} /\ Len(hist[n].B) = Len(hist[n].A)
+                                        /\ hist[n].bad \subseteq 1..Len(hist[n].A)
+                                        /\ Cardinality(hist[n].bad) <= par
+                                        /\ hist[n].d \in {"float32", "float64"}
+\* the expectation for the n-th call is that of a FRESH object whose first and only call gets the n-th
+\* matrix, whatever the earlier calls were (evaluated where the history is exported)
+HistPerCall == Len(hist) = HistLen =>
+                  \A n \in DOMAIN hist : HistExpectedK(hist, n, M0 + 1) = HistExpectedK(<<hist[n]>>, 1, M0 + 1)
+
+\* calls whose result must DIFFER from that of the previous call although m and dtype are the same:
+\* Krum - the n_selected for which both selections are decided and different; TrimmedMean - <<1>>
+SelChanged(ex, n) ==
+    IF n = 1 \/ ex[n].m # ex[n - 1].m \/ ex[n].d # ex[n - 1].d \/ ex[n].status # "ok" THEN <<>>
+    ELSE IF kind = "tm" THEN (IF ex[n].tm # ex[n - 1].tm THEN <<1>> ELSE <<>>)
+    ELSE SetToSeq({k \in 1..ex[n].m : /\ Len(ex[n].krum[k].allowed) = 1 /\ Len(ex[n - 1].krum[k].allowed) = 1
+                                      /\ ex[n].krum[k].allowed # ex[n - 1].krum[k].allowed})
+HistoryScenario ==
+    LET ex == TLCEval([n \in DOMAIN hist |-> HistExpected(hist, n)]) IN
+    [kind |-> kind, par |-> par, hs |-> hs, m0 |-> M0, sexp |-> SExp, exps |-> Exps, offs |-> Offsets,
+     calls |-> ex, changed |-> [n \in DOMAIN hist |-> SelChanged(ex, n)]]
+HistExport == Len(hist) = HistLen => PrintT(<<"HIST", ToJson(HistoryScenario)>>)
 =============================================================================
